@@ -360,3 +360,30 @@ def run(rep, tier):
         x['k'] == 'StringLiteral' and set(x.get('str') or '') == set('{[') for x in sub(n['c'][0]))) and any(x['k'] == 'ReturnStmt' for x in sub(n['c'][1]))]
     rep.check(not early, 'R15.9', 'fromJSON|top-level atom', locstr(early[0]) if early else fj.where(), 'a text that does not start with { or [ %s' % (
         'is parsed' if not early else 'is answered with an empty Data: Data("top") and Data(42) written by toJSON ("top", 42) come back empty'))
+
+    # ---- R15.10 the tree built from arbitrary text has bounded depth
+    rep.rule('R15.10', 'clean failure on deep nesting: Data is a recursive type (destroyed, copied and printed recursively), so the builder of a Data tree from text bounds its depth - every push on the stack of open containers in Data::fromJSON happens under a comparison of a stack size with a constant')
+    g10 = cfgm.CFG(fj)
+    # the stack of open containers: the std::list of tokens (one entry per '[' / '{' not yet closed)
+    pushes = [n for n in fj.walk() if n['k'] == 'CXXMemberCallExpr' and n.get('callee', {}).get('q', '').split('::')[-1] in ('push_back', 'emplace_back', 'push_front')
+              and 'jsmntok' in n.get('callee', {}).get('q', '') and n['id'] in g10.pos]
+    rep.minimum('R15.10', len(pushes), 1, 'pushes on the open-container stack in Data::fromJSON')
+    def size_vs_const(cn):
+        for x in sub(cn):
+            if x.get('op') in ('<', '<=', '>', '>=') and x['k'] in ('BinaryOperator', 'CXXOperatorCallExpr') and len(x.get('c', [])) >= 2:
+                a, b = x['c'][-2], x['c'][-1]
+                for s_, c_ in ((a, b), (b, a)):
+                    if any(y['k'] == 'CXXMemberCallExpr' and y.get('callee', {}).get('q', '').split('::')[-1] == 'size' and 'std::list' in y['callee']['q'] for y in sub(s_)) and tab.const_of(c_) is not None:
+                        return True
+        return False
+    for n in pushes:
+        tb = g10.pos[n['id']][0]
+        ok = False
+        for bid, blk in g10.blocks.items():
+            c = blk.get('cond')
+            if c is None or c not in fj.nodes or bid == tb or not size_vs_const(fj.nodes[c]):
+                continue
+            if edge_dominates(g10, bid, True, tb) or edge_dominates(g10, bid, False, tb):
+                ok = True
+        rep.check(ok, 'R15.10', 'fromJSON|nesting bound', locstr(n), 'an open container is pushed %s' % (
+            'only below a constant nesting depth' if ok else 'WITHOUT any bound on the nesting: 200000 `[` followed by 200000 `]` parse, and the recursive destructor of the result overflows the stack (SIGSEGV)'))
